@@ -7,7 +7,7 @@ CONSTANTS
   MaxKps = 40
   MaxEpoch = 30
   PathRequiredChoices = {FALSE, TRUE}
-  EncChoices = {FALSE}
+  EncChoices = {FALSE, TRUE}
   ByValueMax = 2
   AllowConflicts = FALSE
   Features = {"observer", "apps", "gce", "badkp", "custom", "extcommit", "extsender", "newmember"}
